@@ -1,6 +1,7 @@
 /* LD_PRELOAD interposer: records the ordered device-level operations a tool issues on files whose path
  * contains $IOT_MATCH, with the written bytes, into $IOT_LOG (binary records: op[1] off[8] len[8] data[len]).
  *   ops: 'O' open (off=flags)  'W' write that succeeded (data = bytes actually written)  'w' write attempt refused by the kernel  'S' fsync/fdatasync  'T' ftruncate(off=len)  'F' fallocate(off, len; data=mode as 4 bytes)  'C' close
+ * A second file can be traced with $IOT_MATCH2: its successful writes are recorded as 'X' (with data), its fsyncs as 'Y' (other operations keep their letter).
  * Fault injection (deterministic):
  *   IOT_KILL_AT=N  : _exit(137) immediately before the N-th (0-based) 'W' operation is performed
  *   IOT_FAIL_FROM=N, IOT_FAIL_COUNT=M : 'W' operations N..N+M-1 fail with EIO (both pwrite and write paths)
@@ -22,7 +23,7 @@ static ssize_t (*r_write)(int, const void *, size_t);
 static int (*r_fsync)(int), (*r_fdatasync)(int), (*r_ftruncate64)(int, off64_t), (*r_close)(int);
 static int (*r_fallocate64)(int, int, off64_t, off64_t);
 static int (*r_open64)(const char *, int, ...);
-static int lgfd = -1; static const char *match; static long kill_at = -1, fail_from = -1, fail_count = 0, wcount;
+static int lgfd = -1; static const char *match, *match2; static long kill_at = -1, fail_from = -1, fail_count = 0, wcount;
 static int inited;
 
 static void init(void)
@@ -34,7 +35,7 @@ static void init(void)
 	r_fsync = dlsym(RTLD_NEXT, "fsync"); r_fdatasync = dlsym(RTLD_NEXT, "fdatasync");
 	r_ftruncate64 = dlsym(RTLD_NEXT, "ftruncate64"); r_close = dlsym(RTLD_NEXT, "close");
 	r_fallocate64 = dlsym(RTLD_NEXT, "fallocate64"); r_open64 = dlsym(RTLD_NEXT, "open64");
-	match = getenv("IOT_MATCH");
+	match = getenv("IOT_MATCH"); match2 = getenv("IOT_MATCH2");
 	p = getenv("IOT_LOG");
 	if (p) lgfd = r_open64(p, O_WRONLY | O_CREAT | O_APPEND | O_CLOEXEC, 0644);
 	if ((p = getenv("IOT_KILL_AT"))) kill_at = atol(p);
@@ -50,6 +51,7 @@ static int hit(int fd)
 	n = readlink(l, path, sizeof path - 1);
 	if (n < 0) return 0;
 	path[n] = 0;
+	if (match2 && strstr(path, match2)) return 2;
 	return strstr(path, match) != NULL;
 }
 static void rec(char op, int64_t off, const void *b, uint64_t n)
@@ -71,11 +73,12 @@ static int wgate(void)
 ssize_t pwrite64(int fd, const void *b, size_t n, off64_t o)
 {
 	init();
-	if (hit(fd)) {
+	int h = hit(fd);
+	if (h) {
 		ssize_t r; int e;
 		if (wgate()) { rec('E', o, 0, n); errno = EIO; return -1; }
 		r = r_pwrite64(fd, b, n, o); e = errno;
-		if (r > 0) rec('W', o, b, r); else rec('w', o, 0, n);	/* 'w': attempted write that the kernel refused (e.g. read-only descriptor) */
+		if (r > 0) rec(h == 2 ? 'X' : 'W', o, b, r); else rec('w', o, 0, n);	/* 'w': attempted write that the kernel refused (e.g. read-only descriptor) */
 		errno = e; return r;
 	}
 	return r_pwrite64(fd, b, n, o);
@@ -84,18 +87,19 @@ ssize_t pwrite(int fd, const void *b, size_t n, off_t o) { return pwrite64(fd, b
 ssize_t write(int fd, const void *b, size_t n)
 {
 	init();
-	if (fd > 2 && hit(fd)) {
+	int h = fd > 2 ? hit(fd) : 0;
+	if (h) {
 		off64_t o = lseek64(fd, 0, SEEK_CUR);
 		ssize_t r; int e;
 		if (wgate()) { rec('E', o, 0, n); errno = EIO; return -1; }
 		r = r_write(fd, b, n); e = errno;
-		if (r > 0) rec('W', o, b, r); else rec('w', o, 0, n);
+		if (r > 0) rec(h == 2 ? 'X' : 'W', o, b, r); else rec('w', o, 0, n);
 		errno = e; return r;
 	}
 	return r_write(fd, b, n);
 }
-int fsync(int fd) { init(); if (hit(fd)) rec('S', 0, 0, 0); return r_fsync(fd); }
-int fdatasync(int fd) { init(); if (hit(fd)) rec('S', 0, 0, 0); return r_fdatasync(fd); }
+int fsync(int fd) { int h; init(); h = hit(fd); if (h) rec(h == 2 ? 'Y' : 'S', 0, 0, 0); return r_fsync(fd); }
+int fdatasync(int fd) { int h; init(); h = hit(fd); if (h) rec(h == 2 ? 'Y' : 'S', 0, 0, 0); return r_fdatasync(fd); }
 int ftruncate64(int fd, off64_t len) { int r, e, h; init(); h = hit(fd); r = r_ftruncate64(fd, len); e = errno; if (h) rec(r == 0 ? 'T' : 't', len, 0, 0); errno = e; return r; }
 int ftruncate(int fd, off_t len) { return ftruncate64(fd, len); }
 int fallocate64(int fd, int mode, off64_t off, off64_t len)
